@@ -1,66 +1,112 @@
 """Library contracts added per property (ASSUMED, trusted base).  Every module here defines
 ``register(lib)`` which adds entries to ``lib.np`` (numpy names, e.g. lib.np["histogram"]), ``lib.mods[<module>]``
-(other modules: 'math', 'pandas', ...), or ``lib.extern['pkg.mod.name']`` (targets of ``from pkg.mod import name``).
+(other modules: 'math', 'pandas', ...), or ``lib.extern['pkg.mod.name']`` (targets of ``from pkg.mod import name``); some
+replace a builtin (``pyvc.lib.BUILTINS``), a dispatcher method of the table (``lib.value_eq`` ...) or an engine default
+(the patchable globals listed in ``GLOBALS``).
 
 Loaded by pyvc.lib.Lib._build.  The table is built **per property** (`pyvc.vc.lib_for(prop)`, chosen by `unit.prop`):
   * the modules of the *other* properties are loaded first, in sorted order, and may only ADD names (a name that the base
-    table or an earlier module already defines is left as it is) and may not install engine hooks;
-  * the property's own module is loaded last and may override names and install hooks.
-So the contract of a library function that a unit sees is the base contract, or the one its own property states; a contract
-written for another property never silently replaces it."""
+    table or an earlier module already defines is left as it is); whatever else they patch (builtins, dispatcher methods,
+    engine defaults) is reverted;
+  * the property's own module is loaded last and may override names and patch engine defaults.
+The state of the patchable globals after loading is stored with the table and installed by ``lib.activate()`` before a
+unit of that property runs.  So the contract of a library function that a unit sees is the base contract, or the one its own
+property states; a contract written for another property never silently replaces it."""
 import importlib
 import pkgutil
 
-# global single-element cells through which a libext module may replace an engine default (module, attribute)
-HOOK_CELLS = [("pyvc.arr", "SYMBOLIC_MINMAX"), ("pyvc.arr", "MASKED_ROW")]
+# patchable engine globals: (module, attribute, kind)   kind: cell = one-element list, dict = module-level dict, attr = function
+GLOBALS = [
+    ("pyvc.arr", "SYMBOLIC_MINMAX", "cell"),
+    ("pyvc.arr", "MASKED_ROW", "cell"),
+    ("pyvc.lib", "BUILTINS", "dict"),
+    ("pyvc.text", "open_file", "attr"),
+    ("pyvc.text", "file_method", "attr"),
+]
+_BASE = {}
 
 
-def _cells():
-    out = {}
-    for modname, attr in HOOK_CELLS:
-        mod = importlib.import_module(modname)
-        if hasattr(mod, attr):
-            out[f"{modname}.{attr}"] = getattr(mod, attr)
-    return out
+def _get(g):
+    modname, attr, kind = g
+    mod = importlib.import_module(modname)
+    if not hasattr(mod, attr):
+        return None
+    v = getattr(mod, attr)
+    if kind == "cell":
+        return v[0]
+    if kind == "dict":
+        return dict(v)
+    return v
+
+
+def _set(g, val):
+    modname, attr, kind = g
+    mod = importlib.import_module(modname)
+    if not hasattr(mod, attr):
+        return
+    if kind == "cell":
+        getattr(mod, attr)[0] = val
+    elif kind == "dict":
+        d = getattr(mod, attr)
+        d.clear()
+        d.update(val or {})
+    else:
+        setattr(mod, attr, val)
+
+
+def _key(g):
+    return f"{g[0]}.{g[1]}"
 
 
 def set_hooks(hooks):
-    for name, cell in _cells().items():
-        cell[0] = hooks.get(name)
-
-
-def _dict_attrs(lib):
-    return {k: v for k, v in vars(lib).items() if isinstance(v, dict) and k != "hooks"}
+    """install a table's values of the patchable globals (missing ones: the base values)"""
+    for g in GLOBALS:
+        k = _key(g)
+        _set(g, hooks[k] if k in hooks else _BASE.get(k))
 
 
 def _snapshot(lib):
     snap = {}
-    for k, d in _dict_attrs(lib).items():
-        snap[k] = {kk: (dict(vv) if isinstance(vv, dict) else vv) for kk, vv in d.items()}
+    for k, v in vars(lib).items():
+        if k == "hooks":
+            continue
+        if isinstance(v, dict):
+            snap[k] = ("dict", {kk: (dict(vv) if isinstance(vv, dict) else vv) for kk, vv in v.items()})
+        else:
+            snap[k] = ("attr", v)
     return snap
 
 
 def _keep_additions_only(lib, snap):
-    for k, d in _dict_attrs(lib).items():
-        old = snap.get(k)
-        if old is None:
+    for k in list(vars(lib)):
+        if k == "hooks":
             continue
-        for kk in list(d):
+        v = vars(lib)[k]
+        if k not in snap:
+            if not isinstance(v, dict):
+                delattr(lib, k)        # a dispatcher method patched on the instance by another property's module
+            continue
+        kind, old = snap[k]
+        if kind == "attr" or not isinstance(v, dict):
+            setattr(lib, k, old if kind == "attr" else v)
+            continue
+        for kk in list(v):
             if kk in old:
-                if isinstance(d[kk], dict) and isinstance(old[kk], dict):
-                    sub = d[kk]
+                if isinstance(v[kk], dict) and isinstance(old[kk], dict):
+                    sub = v[kk]
                     for k3 in list(sub):
                         if k3 in old[kk]:
                             sub[k3] = old[kk][k3]
                 else:
-                    d[kk] = old[kk]
+                    v[kk] = old[kk]
 
 
 def load_all(lib, prop=None):
     mods = sorted(pkgutil.iter_modules(__path__), key=lambda x: x.name)
-    cells = _cells()
-    for c in cells.values():
-        c[0] = None
+    if not _BASE:
+        for g in GLOBALS:
+            _BASE[_key(g)] = _get(g)
+    set_hooks({})
     own = [m for m in mods if m.name == prop]
     for m in [m for m in mods if m.name != prop] + own:
         mod = importlib.import_module(f"{__name__}.{m.name}")
@@ -68,12 +114,22 @@ def load_all(lib, prop=None):
             continue
         if m.name == prop:
             mod.register(lib)
-            lib.hooks = {name: c[0] for name, c in cells.items() if c[0] is not None}
-        else:
-            snap = _snapshot(lib)
-            mod.register(lib)
-            _keep_additions_only(lib, snap)
-            for c in cells.values():
-                c[0] = None
-    for c in cells.values():
-        c[0] = None
+            continue
+        snap = _snapshot(lib)
+        gsnap = {_key(g): _get(g) for g in GLOBALS}
+        mod.register(lib)
+        _keep_additions_only(lib, snap)
+        for g in GLOBALS:
+            k = _key(g)
+            if g[2] == "dict":
+                now = _get(g) or {}
+                old = gsnap[k] or {}
+                merged = dict(old)
+                for kk, vv in now.items():
+                    if kk not in old:
+                        merged[kk] = vv
+                _set(g, merged)
+            else:
+                _set(g, gsnap[k])
+    lib.hooks = {_key(g): _get(g) for g in GLOBALS}
+    set_hooks({})
